@@ -195,6 +195,77 @@ func planDuplication(m *Module, base map[string][]byte) (map[string][]byte, int)
 				}
 			}
 		}
+		// Helpers that (mutually) recurse, and helpers whose copies would multiply
+		// beyond a small bound, are left alone.
+		for changed := true; changed; {
+			changed = false
+			calls := map[*ast.FuncDecl][]*ast.FuncDecl{} // eligible helper -> eligible helpers it calls
+			for _, obj := range order {
+				h := helpers[obj]
+				if !eligible[h.decl] {
+					continue
+				}
+				for _, e := range h.encl {
+					if eligible[e] {
+						calls[e] = append(calls[e], h.decl)
+					}
+				}
+			}
+			var reaches func(from, to *ast.FuncDecl, seen map[*ast.FuncDecl]bool) bool
+			reaches = func(from, to *ast.FuncDecl, seen map[*ast.FuncDecl]bool) bool {
+				for _, c := range calls[from] {
+					if c == to {
+						return true
+					}
+					if !seen[c] {
+						seen[c] = true
+						if reaches(c, to, seen) {
+							return true
+						}
+					}
+				}
+				return false
+			}
+			for d := range eligible {
+				if reaches(d, d, map[*ast.FuncDecl]bool{}) {
+					delete(eligible, d)
+					changed = true
+				}
+			}
+			if changed {
+				continue
+			}
+			ncopies := map[*ast.FuncDecl]int{}
+			var count func(h *helper) int
+			count = func(h *helper) int {
+				if n, ok := ncopies[h.decl]; ok {
+					return n
+				}
+				ncopies[h.decl] = 1 << 20 // guard; cycles were removed above
+				n := 0
+				for _, e := range h.encl {
+					if eligible[e] {
+						for _, obj := range order {
+							if helpers[obj].decl == e {
+								n += count(helpers[obj])
+							}
+						}
+					} else {
+						n++
+					}
+				}
+				ncopies[h.decl] = n
+				return n
+			}
+			for _, obj := range order {
+				h := helpers[obj]
+				if eligible[h.decl] && count(h) > 16 {
+					delete(eligible, h.decl)
+					changed = true
+					break
+				}
+			}
+		}
 		type edit struct {
 			off  int
 			end  int
